@@ -15,7 +15,8 @@ MOD = "vlib.engines.compat"
 BLOOM_CFGS = [(3, 1, 7), (3, 2, 7), (5, 2, 7), (3, 2, 8), (8, 2, 7), (8, 3, 7), (8, 2, 9)]
 # at scale: (est_elements, rate) pairs; some differ in bits but not in bytes or hashes, some only in hashes
 BIG_BLOOM = [(10, 0.05), (10, 0.055), (1000, 0.05), (1001, 0.05), (1000, 0.049), (20000, 0.01), (20001, 0.01), (20000, 0.0101)]
-CMS_CFGS = [(2, 2, 7), (2, 3, 7), (3, 2, 7), (2, 2, 8), (1, 1, 7)]
+# incl. one-row sketches whose widths send the probe key to the same column (7 % 8 = 7 % 9) and one-column sketches with different hash functions
+CMS_CFGS = [(2, 2, 7), (2, 3, 7), (3, 2, 7), (2, 2, 8), (1, 1, 7), (8, 1, 7), (9, 1, 7), (1, 2, 7), (1, 2, 8), (16, 1, 7)]
 FOREIGN = ["int", "none", "str", "dict", "qf", "cuckoo"]
 
 
